@@ -251,8 +251,16 @@ def run(rep, tier):
             if len(po) == 1:
                 pname, init = po[0]
                 pc = synq.method_calls(init, "payload_offset")[0]
+                # the case list handed to payload_offset is the helper's own `cases` parameter (all cases, unfiltered):
+                # the payload offset is max alignment over ALL payloads, whatever this walker does with each case
+                roles = synq.param_roles(f)
+                case_params = [nm for nm, r in roles.items() if r.startswith("$p")]
+                shadowed = [nm for nm, i_, st_ in synq.bindings(f.body) if nm in roles]
+                arg1 = R(f, pc["args"][1]) if len(pc["args"]) == 2 else None
                 ok = init.get("k") == "binary" and init["op"] == "+" and R(f, init["l"]) == "$offset" and \
-                    R(f, pc["recv"]) == "self.bindgen.sizes()" and R(f, pc["args"][0]) == "$tag" and len(pc["args"]) == 2
+                    R(f, pc["recv"]) == "self.bindgen.sizes()" and R(f, pc["args"][0]) == "$tag" and len(pc["args"]) == 2 \
+                    and len(case_params) == 1 and arg1 in (roles[case_params[0]], roles[case_params[0]] + ".clone()") \
+                    and not shadowed
             rep.ob("R1.5", f"{nm}: payload offset = offset + sizes.payload_offset(tag, cases)", ok,
                    f"{[R(f, i) for _, i in po]}", f.loc())
             tg = [R(f, m["args"]) for m in synq.method_calls(f.body, acc)]
